@@ -313,6 +313,20 @@ def pairs_for(ctx, base, label, rng):
                 if r != ('ok', False):
                     ctx.violation('curate.compare_elements', pname, 'compare_elements after %s answers %s' % (pname, r),
                                   {'kind': 'compare', 'label': label, 'perturbation': pname})
+    # shells that pair up within the tolerance, but not with the first candidate each: A holds x and x(1 + 1.8e-6), B holds
+    # x(1 + 0.9e-6) and x(1 - 0.8e-6); the pairing A1-B2, A2-B1 is within 1e-6 everywhere, A2-B2 is not
+    els = [z for z, el in base['elements'].items() if 'electron_shells' in el]
+    if els:
+        z = rng.choice(els)
+        a, b = copy.deepcopy(base), copy.deepcopy(base)
+        x = rng.choice(['0.0371', '2.5', '118.25'])
+
+        def unit(f):
+            return {'function_type': 'gto', 'region': '', 'angular_momentum': [0], 'exponents': [scale_num(x, f)], 'coefficients': [['1.0']]}
+        a['elements'][z]['electron_shells'] += [unit('1'), unit('1.0000018')]
+        b['elements'][z]['electron_shells'] += [unit('1.0000009'), unit('0.9999992')]
+        compare_pair(ctx, a, b, label, 'pairing-within-tolerance', False, True)
+        compare_pair(ctx, b, a, label, 'pairing-within-tolerance:swapped', False, True)
     # diff: (base + extra shells) - base = the extra shells
     left = copy.deepcopy(base)
     extra = {}
